@@ -115,7 +115,9 @@ Definition push_action (a : action) : MH N :=
 
 Definition out_send (addr_index addr_subindex : N) (name : list N) (amount : N) (param : list N) : MH N :=
   h <- get_hs ;;
-  (* from_utf8(..)? ; ReceiveName::new(..)? *)
+  (* ensure!(len <= MAX_FUNC_NAME_SIZE) (fix: before the UTF-8 scan); from_utf8(..)? ; ReceiveName::new(..)? *)
+  ensure (lenN name <=? 100) ;;;
+  emit (EvFixed (lenN name)) ;;;                             (* the scan: now at most 100 bytes *)
   ensure (valid_receive_name name) ;;;
   emit (EvFixed (lenN name)) ;;;                             (* rn.to_owned(): at most 100 bytes *)
   ensure (lenN param <=? h_maxparam h) ;;;
@@ -134,9 +136,10 @@ Definition get_parameter_size : MH (option N) :=
 
 (** shared by get_parameter_section (v0 and v1) once the parameter is selected *)
 Definition read_section (param : list N) (start length offset : N) : MH (option N) :=
-  let write_end := start + length in
+  write_end <- uadd start length ;;
   ensure_fits (write_end) ;;;
-  let end_ := N.min (offset + length) (lenN param) in
+  off_end <- uadd offset length ;;
+  let end_ := N.min off_end (lenN param) in
   ensure (offset <=? end_) ;;;
   _ <- mslice start write_end ;;                             (* &mut memory[start..write_end] *)
   src <- vslice param offset end_ ;;                         (* &param[offset..end] *)
@@ -154,7 +157,7 @@ Definition get_policy_section (start length offset : N) : MH (option N) :=
   read_section (h_policy h) start length offset.
 
 Definition log_event (start length : N) : MH (option N) :=
-  let end_ := start + length in
+  end_ <- uadd start length ;;
   ensure_fits (end_) ;;;
   if length <=? MAX_LOG_SIZE then
     tick (log_event_cost length) ;;;
@@ -166,7 +169,7 @@ Definition log_event (start length : N) : MH (option N) :=
 
 Definition load_state (start length offset : N) : MH (option N) :=
   tick (copy_from_host_cost length) ;;;
-  let end_ := start + length in
+  end_ <- uadd start length ;;
   ensure_fits (end_) ;;;
   _ <- mslice start end_ ;;
   r <- st_load_state offset start length ;;
@@ -174,7 +177,7 @@ Definition load_state (start length offset : N) : MH (option N) :=
 
 Definition write_state (start length offset : N) : MH (option N) :=
   tick (copy_to_host_cost length) ;;;
-  let end_ := start + length in
+  end_ <- uadd start length ;;
   ensure_fits (end_) ;;;
   bytes <- mslice start end_ ;;
   r <- st_write_state offset bytes ;;
@@ -195,8 +198,9 @@ Definition get_slot_time : MH (option N) :=
 
 (** writes a fixed 32-byte address at [start] *)
 Definition put_address (addr : list N) (start : N) : MH (option N) :=
-  ensure_fits (start + 32) ;;;
-  _ <- mslice start (start + 32) ;;
+  end_ <- uadd start 32 ;;
+  ensure_fits end_ ;;;
+  _ <- mslice start end_ ;;
   mstore start (firstnN 32 (addr ++ zerosN 32)) ;;; emit (EvFixed 32) ;;; ret None.
 
 Definition get_init_origin (start : N) : MH (option N) :=
@@ -208,11 +212,13 @@ Definition get_receive_owner (start : N) : MH (option N) :=
 
 Definition get_receive_self_address (start : N) : MH (option N) :=
   h <- get_hs ;;
-  ensure_fits (start + 16) ;;;
-  _ <- mslice start (start + 8) ;;
+  end_ <- uadd start 16 ;;
+  ensure_fits end_ ;;;
+  mid <- uadd start 8 ;;
+  _ <- mslice start mid ;;
   mstore start (le_bytes 8 (h_self_index h)) ;;;
-  _ <- mslice (start + 8) (start + 16) ;;
-  mstore (start + 8) (le_bytes 8 (h_self_sub h)) ;;; emit (EvFixed 16) ;;; ret None.
+  _ <- mslice mid end_ ;;
+  mstore mid (le_bytes 8 (h_self_sub h)) ;;; emit (EvFixed 16) ;;; ret None.
 
 Definition get_receive_self_balance : MH (option N) :=
   h <- get_hs ;; ret (Some (h_balance h)).
@@ -231,16 +237,17 @@ Definition accept : MH (option N) :=
 
 Definition simple_transfer (addr_start amount : N) : MH (option N) :=
   tick BASE_ACTION_COST ;;;
-  ensure_fits (addr_start + 32) ;;;
-  bytes <- mslice addr_start (addr_start + 32) ;;
+  addr_end <- uadd addr_start 32 ;;
+  ensure_fits addr_end ;;;
+  bytes <- mslice addr_start addr_end ;;
   emit (EvFixed 32) ;;;
   r <- push_action (ATransfer bytes amount) ;; ret (Some r).
 
 Definition send (addr_index addr_subindex receive_name_start receive_name_len amount
                  parameter_start parameter_len : N) : MH (option N) :=
   tick (action_send_cost parameter_len) ;;;
-  let parameter_end := parameter_start + parameter_len in
-  let receive_name_end := receive_name_start + receive_name_len in
+  parameter_end <- uadd parameter_start parameter_len ;;
+  receive_name_end <- uadd receive_name_start receive_name_len ;;
   ensure_fits (parameter_end) ;;;
   ensure_fits (receive_name_end) ;;;
   name <- mslice receive_name_start receive_name_end ;;
@@ -280,6 +287,17 @@ Definition v0_receive_only (f : v0fn) : bool :=
   | V0get_receive_invoker | V0get_receive_self_address | V0get_receive_self_balance
   | V0get_receive_sender | V0get_receive_owner => true
   | _ => false
+  end.
+
+(** parameter types of the imports (bounds of the popped values): I32 -> 2^32, I64 -> 2^64 *)
+Definition sig0 (f : v0fn) : list N :=
+  match f with
+  | V0accept | V0get_parameter_size | V0state_size | V0get_receive_self_balance | V0get_slot_time => []
+  | V0simple_transfer => [W32; W64]
+  | V0send => [W64; W64; W32; W32; W64; W32; W32]
+  | V0combine_and | V0combine_or | V0log_event => [W32; W32]
+  | V0get_parameter_section | V0get_policy_section | V0load_state | V0write_state => [W32; W32; W32]
+  | _ => [W32]
   end.
 
 Definition call_v0_raw (f : v0fn) (args : list N) : MH (option N) :=
